@@ -45,6 +45,17 @@ theorem record_call' (f : Nat) (c : Contract) (h : List Trick) (tn : Nat) (l : S
         [encHistory c h, .int tn, .obj n_TrickHistory [(n_leader, encSeat l), (n_cards, .tuple (cs.map encCard))]]
       = .ok (.none, encHistory c (⟨l, cs⟩ :: h)) := record_call f c h tn ⟨l, cs⟩ hwf
 
+theorem record_call_bad (f : Nat) (c : Contract) (h : List Trick) (tn : Nat) (l : Seat) (cs : List Card)
+    (hwf : ¬ h.length + 1 = tn) :
+    callF (mkRec P (f+10)) m_PlayingHistory_record
+        [encHistory c h, .int tn, .obj n_TrickHistory [(n_leader, encSeat l), (n_cards, .tuple (cs.map encCard))]]
+      = .error (.exc K.ValueError) := by
+  rw [callF_def]
+  simp only [m_PlayingHistory_record, bindParams, Option.map, encHistory]
+  have e : ¬ ((h.reverse.map encTrick).length : Int) = (tn : Int) - 1 := by
+    simp only [List.length_map, List.length_reverse]; omega
+  ppsimp [len_tuple, beq_int, beq_eq_false_iff_ne, ne_eq, e]
+
 /-! ## `_record` -/
 theorem construct_trick (r : Rec) (l cs : Val) :
     constructF r P n_TrickHistory [l, cs] = .ok (.obj n_TrickHistory [(n_leader, l), (n_cards, cs)]) := rfl
@@ -56,6 +67,12 @@ theorem record_self_call (f : Nat) (k : Id) (ex : List (Id × Val)) (c : Contrac
   rw [callF_def]
   simp only [m_PlayingPhase__record, bindParams, Option.map, ppObj, baseFields]
   ppsimp [encCards, construct_trick, builtin_tuple_tuple, meth_encHistory, mth_record, record_call' _ _ _ _ _ _ hwf]
+
+theorem record_self_call_bad (f : Nat) (k : Id) (ex : List (Id × Val)) (c : Contract) (s : PState) (hwf : ¬ WF s) :
+    callF (mkRec P (f+20)) m_PlayingPhase__record [ppObj k c s ex] = .error (.exc K.ValueError) := by
+  rw [callF_def]
+  simp only [m_PlayingPhase__record, bindParams, Option.map, ppObj, baseFields]
+  ppsimp [encCards, construct_trick, builtin_tuple_tuple, meth_encHistory, mth_record, record_call_bad _ _ _ _ _ _ hwf]
 
 /-! ## `_set_next_leader` -/
 def snlBody : List Stmt := match m_PlayingPhase__set_next_leader.body.getD 3 .pass with
